@@ -264,6 +264,7 @@ def _o_qgauss2_init(call):
 
 
 def install():
+    probe.enable_recall("C17.recall", every=5)
     u = "esutil.integrate.util:"
     probe.instrument(u + "gauleg", [_o_gauleg], also=["esutil.integrate"])
     probe.instrument(u + "QGauss.integrate_func", [_o_integrate("func")])
